@@ -240,8 +240,8 @@ STORAGE_PROPS = {
                 # wasm: C05_history_never_panics_unconditional assumes that no message is signed by an escrow account; for
                 # contract-originated posts that is what the binding's creator check provides
                 rel=st(fields=["panic"], ops=["block"], opfields={"postFile": ["outcome", "files"]}, wasm=True)),
-    "C07": dict(main="plans", monitor=mon_storage.c07,
-                rel=st(fields=["payinfo"], ops=["postFile", "deleteFile"], opfields={"buyStorage": ["outcome"], "block": ["files", "files2"]},
+    "C07": dict(main="plans", extra=("msgs",), monitor=mon_storage.c07,
+                rel=st(fields=["payinfo"], ops=["postFile", "deleteFile"], opfields={"buyStorage": ["outcome"], "block": ["files", "files2"]}, wasm=True,
                        queries=["payInfo", "allPayInfo", "payData", "clientFreeSpace", "fileUploadCheck", "storageStats", "networkSize"])),
     "C12": dict(main="payments", monitor=mon_storage.C12, stateful=True, facts=facts.gen_pure_fns,
                 rel=st(fields=["gauges"], opfields={"block": ["bank", "panic"], "postFile": ["bank"], "buyStorage": ["bank"]}, queries=["gauges"])),
